@@ -184,6 +184,16 @@ Definition sch_max_def (path : list reptype) : N :=          (* max_definition_l
 Definition sch_is_required (path : list reptype) : bool :=   (* is_required: every part REQUIRED *)
   forallb (fun t => match t with REQUIRED => true | _ => false end) path.
 
+(* core._nested_levels (added by a fix: commit): a LIST / MAP group below other groups has one more
+   definition level per non-required ancestor; for the flattened column they are folded into level 0:
+     n_opt = #(non-REQUIRED elements of path[:-2]);  null = n_opt > 0;  shift = max(n_opt - 1, 0);
+     defi = max(defi, shift) - shift;  max_defi = max_defi - shift            (N subtraction truncates) *)
+Definition sch_n_opt (path : list reptype) : N :=
+  fold_left (fun m t => match t with REQUIRED => m | _ => m + 1 end) (firstn (length path - 2) path) 0.
+Definition nested_levels (path : list reptype) (defi : list N) (max_defi : N) : bool * list N * N :=
+  let shift := sch_n_opt path - 1 in
+  (0 <? sch_n_opt path, map (fun d => N.max d shift - shift) defi, max_defi - shift).
+
 (* the path of the leaf of a LIST / MAP-key / MAP-value column of a given shape *)
 Definition shape_path (sh : shape) : list reptype :=
   [if row_opt sh then OPTIONAL else REQUIRED; REPEATED; if elem_opt sh then OPTIONAL else REQUIRED].
